@@ -20,6 +20,10 @@ ASSUMPTIONS = [
     "fitter fails are oracle inputs (all values quantified in the theorems; in the tie they are taken from the exception the real code threw)",
     "allocation failures enter only through the Alloc template parameter (allocate<T>); operator new inside the library (scratch arrays) is not failed",
     "evaluating an EMPTY table is outside the property (documented precondition, splinetable.h:139); histories never use a destroyed object",
+    "C20_invariant / C20_balanced / C20_safe quantify over histories satisfying wf_op: the op names one of the model's 4 object slots; a file that passes "
+    "the dimension check has ndim >= 1 (fitsio.h:193 throws otherwise) and ndim entries in naxes[]; a fit that passes the sanity checks of fit.h:26-67 has "
+    "ndim >= 1 and as many knot vectors as orders; the byte count of a key is a function of the key. Each condition is shown necessary on the model "
+    "(C20_wf_needed_*); none restricts the code",
 ]
 TRUSTED_EXTRA = ["harness/C20_harness.cpp checking allocator (shared registry; detects double free / foreign pointer / size mismatch / leak; fault injection)",
                  "tools/translators/objfixes.py (which proposed fixes the tree contains -> Generated_objfixes.tree_cfg)"]
@@ -479,7 +483,9 @@ def analyse(env, cases, res, out, stats):
             stats.setdefault("oracle_signatures", {}); stats["oracle_signatures"][sig] = stats["oracle_signatures"].get(sig, 0) + 1
             out.violation(sig, what, payload_of(env, cid, ops, fault, {"oracle": what, "model_agrees": diff is None}))
         if env.cfgbits == "11111111" and mops:
-            # the theorems NOT yet proved (C20_invariant / C20_balanced) are at least tested on the model for this very case
+            # C20_invariant / C20_never_ub / C20_clean / C20_balanced are PROVED (Properties_C20.v) for every history that satisfies wf_op
+            # (every generated history does: slots < 4, ndim >= 1, one length per key); the same facts are re-checked here on the extracted
+            # model for this very case — a disagreement would mean the extracted model is not the proved one, or a history leaves wf_op
             stats["model_invariant_cases"] = stats.get("model_invariant_cases", 0) + 1
             bad = None
             for k, mo in enumerate(mops):
@@ -491,7 +497,7 @@ def analyse(env, cases, res, out, stats):
                 if bad: break
             if bad and not orc:
                 out.violation("C20:model-invariant", "ObjModel (fixed configuration) violates its invariant on this history: " + bad,
-                              payload_of(env, cid, ops, fault, {"broken": "C20_invariant/C20_balanced (tested, not proved)", "detail": bad}))
+                              payload_of(env, cid, ops, fault, {"broken": "C20_invariant/C20_balanced: proved for wf_op histories, yet the extracted model violates them on this case", "detail": bad}))
         if diff:
             ndiff += 1
             stats.setdefault("diffs", []).append((cid, diff))
